@@ -223,6 +223,11 @@ def gen_exact_case(rng):
                 'err_a': rng.randint(1, 64) / 16.0, 'err_b': rng.randint(1, 64) / 16.0, 'err_pa': rng.randint(1, 64) / 8.0,
                 'flags': rng.choice([0, 0, 0, 1, 2, 4, 8, 16, 32, 64, 5]),
                 'psf': (56.25, 56.25, 0.0), 'kind': kind, 'pix': (px, py)})
+            # input uncertainties that are "unknown" (-1) or not uncertainties at all (0, negative): 1 source in 6
+            if rng.random() < 1 / 6:
+                for e in ERR_FIELDS:
+                    if rng.random() < 0.5:
+                        cat[-1][e] = rng.choice([-1.0, -1.0, 0.0, -0.25])
             uid += 1
     rng.shuffle(cat)
     return {'rows': rows, 'cols': cols, 'wcs': w, 'stage': stage, 'blank': blank, 'rms_blank': rblank, 'cat': cat,
